@@ -42,7 +42,8 @@ fn norm_number(digits: &str, exp: i64) -> (String, i64) {
         return ("0".into(), 0);
     }
     let t = d.trim_end_matches('0');
-    (t.to_string(), exp + (d.len() - t.len()) as i64)
+    // exponents beyond +-10^15 all denote 0 / overflow: compared as one class
+    (t.to_string(), exp.saturating_add((d.len() - t.len()) as i64).clamp(-1_000_000_000_000_000, 1_000_000_000_000_000))
 }
 
 // ------------------------------------------------------------------ the model
@@ -266,8 +267,10 @@ impl<'a> RefLex<'a> {
             if n == 0 {
                 return Err("missing exponent digits".into());
             }
-            let e: i64 = ed.parse().map_err(|_| "exponent overflow".to_string())?;
-            exp = if neg { exp.checked_sub(e) } else { exp.checked_add(e) }.ok_or("exponent overflow")?;
+            // an exponent of any size is a number: beyond 64 bits it is saturated (the value is 0
+            // or an overflow either way; norm_number identifies all astronomical exponents)
+            let e: i64 = ed.parse().unwrap_or(i64::MAX);
+            exp = if neg { exp.saturating_sub(e) } else { exp.saturating_add(e) };
         }
         let (d, e) = norm_number(&digits, exp);
         Ok(K::Number(d, e))
@@ -743,6 +746,16 @@ pub fn number_cases(maxlen: usize) -> Vec<Vec<u8>> {
             }
             v.push(seq.iter().map(|&i| chars[i]).collect());
         });
+    }
+    // exponents around and beyond 64 bits, with integer, one-digit and many-digit fractions
+    for mant in ["0", "1", "12", "0.0", "1.5", "1.25", "0.001", "12_3.4_56", "9.999999999999999999999"] {
+        for e in ["9223372036854775806", "9223372036854775807", "9223372036854775808", "9223372036854775809", "18446744073709551615", "18446744073709551616", "99999999999999999999", "9_223372036854775807", "1000000000000000", "999999999999999"] {
+            for sign in ["", "+", "-"] {
+                for ech in ["e", "E"] {
+                    v.push(format!("{mant}{ech}{sign}{e}").into_bytes());
+                }
+            }
+        }
     }
     v
 }
